@@ -116,3 +116,13 @@ func lemmaIntDescCodecOrder(v1, v2 int64) ([]byte, []byte) {
 	lemmaBE64Lex(a, b)
 	return a, b
 }
+
+// ---- value header (wait_compact expiry policy) ----
+
+func lemmaTTLConsistent(h *headerMetaValue, ts int64) (int64, bool) {
+	return h.ttl(ts), h.isExpired(ts)
+}
+
+func lemmaHeaderRoundTrip(h *headerMetaValue, h2 *headerMetaValue) (int, error) {
+	return h2.decode(h.encodeWithData())
+}
